@@ -28,3 +28,15 @@ def generic_replay(rp: dict) -> int:
         print("still failing" if bad else "obligation now discharged")
         return 1 if bad else 0
     return 1
+
+
+# The level a check claims is the level of the method that DECIDES the property, not merely
+# whether some obligations are tagged with it: "proof" where the property's main clauses are
+# postconditions discharged by pyvc; "exploration" where bounded run-time contracts decide and
+# proof obligations (if any) only support them.
+LEVELS = {
+    "C01": "proof", "C02": "proof", "C03": "proof", "C04": "proof", "C08": "proof", "C09": "proof",
+    "C12": "proof", "C13": "proof", "C14": "proof", "C18": "proof",
+    "C05": "exploration", "C06": "exploration", "C07": "exploration", "C10": "exploration", "C11": "exploration",
+    "C15": "exploration", "C16": "exploration", "C17": "exploration", "C19": "exploration",
+}
